@@ -82,6 +82,11 @@ def step (s : LP Hash) (ws : List String) : LP Hash × String :=
   | ["reorg", b] => match b.toNat? with
     | some b => (reorg s b, "ok")
     | none => (s, "bad-op")
+  | ["reorgF", b, tbl] => match b.toNat? with
+    | some b =>
+      let r := reorgFault s b (if tbl = "block" then 0 else if tbl = "inforoot" then 1 else 2)
+      (r.1, if r.2 then "err fault" else "ok")
+    | none => (s, "bad-op")
   | ["restart"] => (restart H N s, "ok")
   | ["q", "halted"] => (s, boolStr s.halted)
   | ["q", "lpb"] => (s, guard fun s => s!"lpb {lastProcessedBlock s}")
